@@ -693,6 +693,7 @@ def verify_contract(I, c, timeout_ms=10000, only_case=None):
                 I.old_snapshot = I.snapshot(list(args.values()) + ghost_roots)
                 I._verifying = fn
                 I._in_body = False
+                I.abstracted = 0
                 exc = None
                 result = None
                 try:
@@ -705,6 +706,10 @@ def verify_contract(I, c, timeout_ms=10000, only_case=None):
                 finally:
                     I._in_body = False
                     I._verifying = None
+                if getattr(I, 'keep_finals', None) is not None:
+                    I.keep_finals.append({'path': I.path_id, 'case': label, 'pc': list(I.pc), 'result': result,
+                                          'exc': (exc.cls.name if exc is not None and hasattr(exc, 'cls') else None),
+                                          'args': args, 'pure': I.abstracted == 0, 'dev': I.ghost['Dev'], 'clk': I.ghost['Clk']})
                 if exc is not None:
                     allowed = None
                     for ename, ens in c.raises_:
@@ -790,6 +795,7 @@ def apply_contract_at_call(I, fn, c, args, kwargs):
     penv = Env(dict(local), None, fn.module.ns, None)
     caller = I.cur_func_name()
     I.used_contracts.add(c.key)
+    I.abstracted = getattr(I, 'abstracted', 0) + 1
     for cid, text in c.requires_:
         I.oblige('%s::call(%s).pre.%s' % (caller, c.name, cid), I.eval_spec(text, penv), kind='pre',
                  info={'clause': text})
